@@ -459,7 +459,12 @@ func init() {
 		ip := ex.callFunction(np.Func("AddrFrom4"), []Value{a4}, nil, nil)
 		return ex.callFunction(np.Func("AddrPortFrom"), []Value{ip, BV(16, 40000)}, nil, nil)
 	})
-	regStub("(*net.conn).Close", func(ex *Exec, fn *ssa.Function, args []Value) Value { return &IfaceV{} })
+	regStub("(*net.conn).Close", func(ex *Exec, fn *ssa.Function, args []Value) Value {
+		if ex.isGhostSock(args[0]) {
+			return udpConnClose(ex, fn, args)
+		}
+		return &IfaceV{}
+	})
 	// name resolution from the harness table
 	suffixStubs["vfSetResolve"] = func(ex *Exec, fn *ssa.Function, args []Value) Value {
 		ex.ghost["resolve:"+ex.argString(args[0])] = args[1]
